@@ -39,6 +39,7 @@ theorem transEvs_heap (v : Variant) (hv : v.callCopies = true) :
       | expr e => simp only [transEvs]; rw [ih]
       | other => simp only [transEvs]; rw [ih]
       | incl t fb => simp only [transEvs]; rw [ih]
+      | startI tag attrs => simp only [transEvs]; rw [ih]
 
 theorem pullSource_heap (v : Variant) (hv : v.callCopies = true) (fuel : Nat) (h : Heap) (st : St)
     (src : Src) : (pullSource v fuel h st src).h = h := by
@@ -58,6 +59,7 @@ theorem pullSource_heap (v : Variant) (hv : v.callCopies = true) (fuel : Nat) (h
       · have hs := transSub_heap v hv (transEvs v fuel) (transEvs_heap v hv fuel) h
           { st with ctx := popN pend (if started = true then st.ctx else setI18nKeys st.ctx) }
         split <;> simp_all
+      · rfl
       · rfl
 
 theorem flat_heap (v : Variant) (hv : v.callCopies = true) :
@@ -80,6 +82,10 @@ theorem flat_heap (v : Variant) (hv : v.callCopies = true) :
             | .out e => ⟨p.1.h, p.1.st, p.1.src, p.2, .ev e⟩
             | .other => ⟨p.1.h, p.1.st, p.1.src, p.2, .err .unmodelled⟩
             | .incl ti fb => ⟨p.1.h, p.1.st, p.1.src, p.2, .incl ti fb⟩
+            | .startI tag attrs =>
+              match evalAttrs p.1.h p.1.st.ph p.1.st.ctx.frames attrs with
+              | .error er => ⟨p.1.h, p.1.st, p.1.src, p.2, .err er⟩
+              | .ok as => ⟨p.1.h, p.1.st, p.1.src, p.2, .ev (.start tag as)⟩
             | .expr ex =>
               match eval p.1.st.ctx.frames ex with
               | .error er => ⟨p.1.h, p.1.st, p.1.src, p.2, .err er⟩
@@ -108,6 +114,7 @@ theorem flat_heap (v : Variant) (hv : v.callCopies = true) :
         · exact hp
         · exact hp
         · exact hp
+        · split <;> exact hp
         · split
           · exact hp
           · rw [ih]; exact hp
@@ -258,6 +265,7 @@ theorem extractEvs_heap (v : Variant) (hv : v.extractCopies = true) :
       | expr e => simp only [extractEvs]; exact ih _ _
       | other => simp only [extractEvs]; exact ih _ _
       | incl t fb => simp only [extractEvs]; exact ih _ _
+      | startI tag attrs => simp only [extractEvs]; exact ih _ _
       | sub d b =>
         cases d with
         | priv a => simp [extractEvs]
